@@ -799,9 +799,7 @@ def unify(s: Type | Const, t: Type | Const, subst: "Subst | None") -> "Subst | N
             return _unify_var(t_var, s, subst)
         case BoundVar(idx=s_idx), BoundVar(idx=t_idx) if s_idx == t_idx:
             return subst
-        case ConstValue(value=c_value, ty=c_ty), ConstValue(
-            value=d_value, ty=d_ty
-        ) if c_value == d_value and c_ty == d_ty:
+        case ConstValue() as c, ConstValue() as d if c == d:
             return subst
         case NumericType(kind=s_kind), NumericType(kind=t_kind) if s_kind == t_kind:
             return subst
